@@ -150,15 +150,23 @@ fn main() {
         ctx.cap_hit(&format!("VERIF_CLI_ONLY={f}: only {} inputs explored", specs.len()));
     }
     let sels: [Vec<String>; 2] = [vec![], vec!["--partial".to_string(), all_names()]];
+    // thorough: multi-function inputs get a quarter of the seed range (their number is what is large)
+    let seeds_for = |spec: &InputSpec| -> Vec<u64> {
+        if ctx.thorough() && spec.templates.len() > 1 {
+            seeds[..(k / 4) as usize].to_vec()
+        } else {
+            seeds.clone()
+        }
+    };
     par_for(specs.len() as u64 * 2, 1, |i| {
         let spec = &specs[(i / 2) as usize];
-        let case = Case { input: spec.build(), args: sels[(i % 2) as usize].clone(), seeds: seeds.clone() };
+        let case = Case { input: spec.build(), args: sels[(i % 2) as usize].clone(), seeds: seeds_for(spec) };
         ctx.add_states(1);
-        ctx.sample(|| json!({"input": case.input.label, "args": case.args, "seeds": format!("{}..{}", offset, offset + k)}));
+        ctx.sample(|| json!({"input": case.input.label, "args": case.args, "seeds": case.seeds.len()}));
         run_case(ctx, &cli, &case);
     });
     ctx.stat("children_cpu_s", (cli_run::children_cpu_ms() - cpu0) / 1000);
-    ctx.set("bounds", json!({"inputs": specs.len(), "selections": "default, --partial <all 19>", "hash_seeds": format!("{}..{} ({} seeds, the first one run twice)", offset, offset + k, k), "input_family": "C21 quick family (all single templates x 4 extern tables x ELF kinds x 2 register tables, all ordered template pairs); thorough adds ET_EXEC and the ARM-style ELF kinds"}));
+    ctx.set("bounds", json!({"inputs": specs.len(), "selections": "default, --partial <all 19>", "hash_seeds": format!("{}..{} ({} seeds, the first one run twice; thorough: two-function inputs use the first {} seeds)", offset, offset + k, k, k / 4), "input_family": "C21 quick family (all single templates x 4 extern tables x ELF kinds x 2 register tables, all ordered template pairs); thorough adds ET_EXEC and the ARM-style ELF kinds"}));
     ctx.assume("LIMIT: the hash-seed space (2^128 key pairs) and the induced iteration-order space cannot be enumerated; only the owned seeds of the stated range are explored, so a divergence that needs a rare order can be missed (level: exploration, exhaustive=false)");
     ctx.assume("seed control verified at start-up in the CLI process itself: the execution order of `--partial <all>` (a HashSet iteration, visible through the hook) is a function of VERIF_HASH_SEED and differs between seeds");
     ctx.assume("thread scheduling of the log collector is decided exhaustively by C25; here it is only sampled by running one seed twice");
